@@ -199,6 +199,9 @@ def get_sys(name):
         ss.PFlow.run()
         ss.TDS.config.no_tqdm = 1
         ss.TDS.init()
+    # right after the real set-up / initialisation: the arrays every model's equations read must be its variable arrays
+    ss._verif_stale_inputs = sorted((mn, vn) for mn, m in ss.models.items() if m.n for vn, var in m.cache.all_vars.items()
+                                    if vn in m._input and m._input[vn] is not var.v)
     _SYS[name] = ss
     return ss
 
@@ -211,7 +214,8 @@ def h_tagflow(name):
         ss = get_sys(name)
         dae = ss.dae
         models = ss.exist.pflow_tds if name == 'dynamic' else ss.PFlow.models
-        out = []
+        out = [('after the real set-up and initialisation the equations of every model read that model\'s own variable arrays '
+                '(also models that take part in the simulation without being initialised for it)', not ss._verif_stale_inputs)]
         # ---- ownership of slots
         for code, size in (('x', dae.n), ('y', dae.m)):
             owners = {}
